@@ -192,3 +192,194 @@ def wake_after(ctx, rule, name, body, start_bbs, waker_field):
         some = lib.switch_edges_on_site(body, tk, {"Some"}, r"^discr\(std::option::Option::take\(")
         got = lib.count_range(body, [t for _, t in some], rets, lib.bbs(wakes)) if some else None
         ctx.ob(rule, name + ": stored waker woken", got == (1, 1), tk.loc(), "wake() on the Some(waker) edge: %s" % (got,))
+
+
+# ------------------------------------------------------------------------------------------------ round 2: scopes, lifting
+def root_name(npath):
+    """Stripped path of the function a closure / coroutine body belongs to (a closure is part of its parent)."""
+    return re.sub(r"(::\{(closure|coroutine|async_block)[^}]*\})+$", "", npath)
+
+
+def root_body(prog, body):
+    b = body
+    seen = 0
+    while b.parent and seen < 8:
+        ps = [x for x in prog.bodies(b.crate) if x.path == b.parent]
+        if not ps:
+            break
+        b = ps[0]
+        seen += 1
+    return b
+
+
+def is_api(body):
+    """A function that outside code can call directly: `pub`, or a trait-impl method (`<T as Trait>::m`)."""
+    return body.vis == "pub" or re.search(r"<[^<>]* as [^<>]*>::\w+$", root_name(body.npath)) is not None
+
+
+def callers_of(prog, crate, body):
+    return [s for b in prog.bodies(crate) for s in b.call_sites() if strip_generics(b.call_name(s.term)) == body.npath and len(s.term["args"]) == body.argc]
+
+
+def entry_roots(prog, crate, site_or_body, depth=4):
+    """The API-level functions from which the site (or body) is reached: closures count as their parent, private helpers
+    are climbed through all of their call sites.  Returns a set of stripped paths (a private function without callers is
+    reported by its own path)."""
+    body = site_or_body.body if isinstance(site_or_body, mir.Site) else site_or_body
+    out = set()
+    work = [(root_body(prog, body), 0)]
+    seen = set()
+    while work:
+        b, d = work.pop()
+        if b.npath in seen:
+            continue
+        seen.add(b.npath)
+        if is_api(b) or d >= depth:
+            out.add(b.npath)
+            continue
+        cs = callers_of(prog, crate, b)
+        if not cs:
+            out.add(b.npath)
+        for s in cs:
+            work.append((root_body(prog, s.body), d + 1))
+    return out
+
+
+def use_sites(prog, crate, body):
+    """Where a closure is created (in its parent) / where a private helper is called."""
+    if body.parent:
+        out = []
+        for p in prog.bodies(crate):
+            if p.path != body.parent:
+                continue
+            for bi in sorted(p.live):
+                blk = p.blocks[bi]
+                for si, st in enumerate(blk["stmts"]):
+                    if st["k"] == "assign" and st["r"]["k"] == "agg" and st["r"].get("ak") in ("closure", "coroutine", "coroutine_closure") and st["r"].get("def") == body.path:
+                        out.append(mir.Site(p, bi, si))
+        return out
+    return callers_of(prog, crate, body)
+
+
+def guarded_up(prog, crate, site, pred, depth=4):
+    """Every path to `site` passes an edge satisfying pred(cond, rendered, label) -- in the site's own body, or (lifting) at
+    every place the enclosing closure is created / the enclosing private helper is called.  pred sees conditions of
+    whichever body the guard is found in."""
+    body = site.body
+    edges = body.guard_edges(pred)
+    if edges and hasattr(body, "derive_edges"):
+        edges = body.derive_edges(edges, pred)
+    if edges and body.must_pass_edges(site.bb, edges):
+        return True
+    if depth <= 0 or (not body.parent and is_api(body)):
+        return False
+    us = use_sites(prog, crate, body)
+    return bool(us) and all(guarded_up(prog, crate, u, pred, depth - 1) for u in us)
+
+
+def subst(e, env):
+    """Replace parameter nodes ('arg', i, name) by env[i] (expressions of the caller)."""
+    if not env:
+        return e
+    t = e[0]
+    if t == "arg":
+        return env.get(e[1], e)
+    if t == "call":
+        return ("call", e[1], tuple(subst(a, env) for a in e[2]), e[3])
+    if t == "bin":
+        return ("bin", e[1], subst(e[2], env), subst(e[3], env))
+    if t == "un":
+        return ("un", e[1], subst(e[2], env))
+    if t == "cast":
+        return ("cast", subst(e[1], env), e[2])
+    if t == "discr":
+        return ("discr", subst(e[1], env))
+    if t == "field":
+        return ("field", subst(e[1], env), e[2], e[3])
+    if t == "downcast":
+        return ("downcast", subst(e[1], env), e[2])
+    if t == "cindex":
+        return ("cindex", subst(e[1], env), e[2], e[3])
+    if t == "index":
+        return ("index", subst(e[1], env), subst(e[2], env))
+    if t == "agg":
+        return ("agg", e[1], e[2], e[3], tuple((f, subst(x, env)) for f, x in e[4]))
+    if t == "closure":
+        return ("closure", e[1], tuple(subst(x, env) for x in e[2]))
+    return e
+
+
+class Scope:
+    """A region of one body seen from an API function: `starts` are the entry blocks of the region, `env` maps the body's
+    parameters to expressions of the API function (identity when the region is in the API function itself), so that
+    rendered expectations written in the API function's terms also match code that was extracted into a private helper."""
+
+    def __init__(self, body, starts, env=None, via=None):
+        self.body, self.starts, self.env, self.via = body, list(starts), env or {}, via
+
+    @property
+    def region(self):
+        return self.body.reachable(self.starts)
+
+    def rx(self, e):
+        return render(subst(e, self.env))
+
+    def sx(self, e):
+        return subst(e, self.env)
+
+    def calls(self, pat=None):
+        reg = self.region
+        return [s for s in self.body.call_sites(pat) if s.bb in reg]
+
+    def rets(self):
+        return self.body.return_blocks()
+
+    def where(self):
+        return "%s:%d" % (self.body.file, self.body.line)
+
+
+def delegate(prog, crate, scope, interesting, self_first=True):
+    """If the region contains none of the `interesting(site)` calls itself but hands over to exactly one crate-local helper
+    (called on every path of the region exactly once, with `self` first), return (Scope of the helper body, call site);
+    else (None, None)."""
+    b = scope.body
+    if any(interesting(s) for s in scope.calls()):
+        return None, None
+    cands = []
+    for s in scope.calls():
+        hs = [x for x in prog.bodies(crate) if x.npath == strip_generics(b.call_name(s.term)) and x.argc == len(s.term["args"]) and not x.parent and not is_api(x)]
+        e = b.site_expr(s)
+        if len(hs) == 1 and (not self_first or (e[2] and render(e[2][0]) in ("self", "^self", "^*self"))):
+            cands.append((s, hs[0]))
+    if len(cands) != 1:
+        return None, None
+    s, h = cands[0]
+    if lib.count_range(b, scope.starts, scope.rets(), [s.bb]) != (1, 1):
+        return None, None
+    e = b.site_expr(s)
+    env = {i + 1: scope.sx(a) for i, a in enumerate(e[2])}
+    return Scope(h, [0], env, via=s), s
+
+
+def settle(prog, crate, scope, interesting, depth=2):
+    """Follow delegations (at most `depth`) until the region itself contains interesting calls."""
+    chain = []
+    for _ in range(depth):
+        nxt, s = delegate(prog, crate, scope, interesting)
+        if nxt is None:
+            break
+        chain.append(nxt.body.npath.split("::")[-1])
+        scope = nxt
+    return scope, chain
+
+
+def eq_test(c):
+    """(op, a, b) for `a == b` / `a != b` in any of its MIR forms (BinOp Eq/Ne, PartialEq::eq/ne call); None otherwise."""
+    if c[0] == "bin" and c[1] in ("Eq", "Ne"):
+        return c[1].lower(), c[2], c[3]
+    if c[0] == "call" and len(c[2]) == 2:
+        n = strip_generics(c[1])
+        m = re.search(r"PartialEq>?::(eq|ne)$", n)
+        if m:
+            return m.group(1), c[2][0], c[2][1]
+    return None
